@@ -79,7 +79,8 @@ def gen_case(chk, i):
         # class / template graphs (bases, virtual methods, destructors, copy constructors, templates instantiated with own parameters,
         # builtins and classes, typedef chains, bit-fields) in a random valid declaration order; layout is C02's, here the items must compile
         from .. import gen_graph
-        g_ = gen_graph.generate(rng, lang="cxx")
+        # (40%: chains of templates each holding an instantiation of the previous one with its own parameter, 2..5 deep)
+        g_ = gen_graph.generate_chain(rng) if rng.random() < 0.4 else gen_graph.generate(rng, lang="cxx")
         ords_, _n = gen_graph.valid_orders(g_, rng, 1)
         text, ext, cargs = gen_graph.render(g_, ords_[0], hoist=rng.random() < 0.5), "hpp", ["-std=c++14"]
     elif fam == "hostile":
